@@ -22,4 +22,7 @@ def templates(tier, seed):
         for groups in (None, ["x"], ["x", "y"]):
             ts.append(Template(f"groupby/groups={groups}/N={N}", t_opt, ("groupby", N, dict(groups=groups))))
         ts.append(Template(f"wide_ignore_na/N={N}", t_opt, ("wide_ignore_na", N, {})))
+    import tmpl_pl
+
+    ts += [Template(tid, tmpl.pick(fn, LABELS), args) for tid, fn, args in tmpl_pl.option_cases(tier)]
     return ts
